@@ -10,6 +10,7 @@ import Driver.Http
 import Driver.Crash
 import Driver.Cluster
 import Driver.Leak
+import Driver.State
 
 /-! One request per line on stdin, one response per line on stdout.  Unknown or malformed
 requests answer `bad-op` (never a default value). -/
@@ -33,6 +34,7 @@ def dispatch (ws : List String) : String :=
   | "planany" :: _ | "c16planholds" :: _ | "known" :: _ => (Driver.Pure.handle ws).getD "bad-op"
   | "raceprog" :: _ => "completed"
   | "c18holds" :: _ => (Driver.Leak.handle ws).getD "bad-op"
+  | "c06holds" :: _ => (Driver.State.handle ws).getD "bad-op"
   | "lcaccept" :: _ | "c07holds" :: _ => (Driver.Lifecycle.handle ws).getD "bad-op"
   | _ => "bad-op"
 
